@@ -106,6 +106,10 @@ func (collection *rcLinkCollectionImpl) GetLinkCount(tx *bbolt.Tx, id []byte, re
 
 func (collection *rcLinkCollectionImpl) EntityDeleted(tx *bbolt.Tx, id string) error {
 	bId := []byte(id)
+	if collection.field.GetStore().GetEntityBucket(tx, bId) == nil {
+		// nothing is linked through this collection, see linkCollectionImpl.EntityDeleted
+		return nil
+	}
 	fieldBucket := collection.getFieldBucket(tx, bId)
 
 	if !fieldBucket.HasError() {
